@@ -31,14 +31,11 @@ var cacheTexts = map[string]string{
 }
 var cacheVars = map[string]map[string]string{"t3": {"amt": "USD 3"}}
 
-// t5 and t6: long scripts (over 4 KiB) of equal length that differ only in their last statement
+// t5 and t6: long scripts (over 4 KiB: one long string literal) of equal length that differ only in their last statement
 func init() {
-	var sb strings.Builder
-	for i := 0; i < 60; i++ {
-		fmt.Fprintf(&sb, "send [USD 1] (\n\tsource = @world\n\tdestination = @filler:%04d\n)\n", i)
-	}
-	cacheTexts["t5"] = sb.String() + "send [USD 2] (\n\tsource = @a\n\tdestination = @x\n)\n"
-	cacheTexts["t6"] = sb.String() + "send [USD 3] (\n\tsource = @a\n\tdestination = @y\n)\n"
+	pad := "set_tx_meta(\"pad\", \"" + strings.Repeat("a", 4300) + "\")\n"
+	cacheTexts["t5"] = pad + "send [USD 2] (\n\tsource = @a\n\tdestination = @x\n)\n"
+	cacheTexts["t6"] = pad + "send [USD 3] (\n\tsource = @a\n\tdestination = @y\n)\n"
 }
 
 func runProgram(p *program.Program, name string) string {
